@@ -14,10 +14,15 @@ ACCS = {
 class Gen:
     def __init__(self, rng: random.Random, n_accs=1, n_fields=3, max_depth=3, max_inv=6,
                  launch_vals=False, carried=True, effects=True, pre_threaded=False, chains=False,
-                 one_setup_per_loop_nest=False):
+                 one_setup_per_loop_nest=False, acc_specs=None):
         self.rng = rng
-        self.accs = list(ACCS)[:n_accs]
-        self.fields = {a: ACCS[a][:n_fields] for a in self.accs}
+        self.acc_specs = acc_specs
+        if acc_specs:
+            self.accs = list(acc_specs)
+            self.fields = {a: acc_specs[a]["fields"] for a in self.accs}
+        else:
+            self.accs = list(ACCS)[:n_accs]
+            self.fields = {a: ACCS[a][:n_fields] for a in self.accs}
         self.max_depth = max_depth
         self.max_inv = max_inv
         self.n = 0
@@ -71,7 +76,13 @@ class Gen:
         s, t = self.fresh("s"), self.fresh("t")
         args = ", ".join(f'"{f}" = {v} : i32' for f, v in zip(fs, vals))
         self.emit(ind, f'{s} = accfg.setup "{acc}" to ({args}) : !accfg.state<"{acc}">')
-        if self.launch_vals and self.rng.random() < 0.5:
+        if self.acc_specs:
+            ln = self.acc_specs[acc]["launch"]
+            lvs = [self.rng.choice(pool) for _ in ln]
+            names = ", ".join(f'"{x}"' for x in ln)
+            tys = ", ".join(["i32"] * len(ln) + [f'!accfg.state<"{acc}">'])
+            self.emit(ind, f'{t} = "accfg.launch"({", ".join(lvs + [s])}) <{{param_names = [{names}], accelerator = "{acc}"}}> : ({tys}) -> !accfg.token<"{acc}">')
+        elif self.launch_vals and self.rng.random() < 0.5:
             lv = self.rng.choice(pool)
             self.emit(ind, f'{t} = "accfg.launch"({lv}, {s}) <{{param_names = ["launch"], accelerator = "{acc}"}}> : (i32, !accfg.state<"{acc}">) -> !accfg.token<"{acc}">')
         else:
@@ -89,9 +100,9 @@ class Gen:
                 if self.inv < self.max_inv:
                     self.invocation(ind, pool, ivpool)
             elif r < 0.70:
-                self.for_loop(ind, depth, pool, ivpool)
+                pool = pool + self.for_loop(ind, depth, pool, ivpool)
             elif r < 0.86:
-                self.if_op(ind, depth, pool, ivpool)
+                pool = pool + self.if_op(ind, depth, pool, ivpool)
             elif r < 0.96 and self.effects:
                 self.opaque(ind, pool)
             else:
@@ -104,16 +115,19 @@ class Gen:
         ub = self.rng.choice(["%c2", "%c3", "%n0", "%n0", "%n0"])
         st = self.rng.choice(["%c1", "%c1", "%c2"])
         i = self.fresh("i")
-        carried = self.carried and self.rng.random() < 0.35
+        carried = self.carried and self.rng.random() < 0.4
+        ncar = self.rng.choice([1, 2, 2]) if carried else 0
+        ps = [self.fresh("p") for _ in range(ncar)]
+        ress = [self.fresh("r") for _ in range(ncar)]
         if carried:
-            p, res = self.fresh("p"), self.fresh("r")
-            init = self.rng.choice(pool)
-            self.emit(ind, f"{res} = scf.for {i} = {lb} to {ub} step {st} iter_args({p} = {init}) -> (i32) {{")
+            inits = [self.rng.choice(pool) for _ in range(ncar)]
+            ia = ", ".join(f"{p} = {v}" for p, v in zip(ps, inits))
+            self.emit(ind, f"{', '.join(ress)} = scf.for {i} = {lb} to {ub} step {st} iter_args({ia}) -> ({', '.join(['i32'] * ncar)}) {{")
         else:
             self.emit(ind, f"scf.for {i} = {lb} to {ub} step {st} {{")
         ic = self.fresh("ic")
         self.emit(ind + 1, f"{ic} = arith.index_cast {i} : index to i32")
-        inner_iv = [ic] + ([p] if carried else [])
+        inner_iv = [ic] + ps
         outermost = self.nest_used is None
         if outermost:
             self.nest_used = set()
@@ -121,10 +135,14 @@ class Gen:
         if outermost:
             self.nest_used = None
         if carried:
-            q = self.fresh("q")
-            self.emit(ind + 1, f"{q} = arith.addi {p}, {self.rng.choice(pool + [ic])} : i32")
-            self.emit(ind + 1, f"scf.yield {q} : i32")
+            qs = []
+            for p in ps:
+                q = self.fresh("q")
+                self.emit(ind + 1, f"{q} = arith.addi {p}, {self.rng.choice(pool + [ic])} : i32")
+                qs.append(q)
+            self.emit(ind + 1, f"scf.yield {', '.join(qs)} : {', '.join(['i32'] * ncar)}")
         self.emit(ind, "}")
+        return ress
 
     def cond(self, ind, pool):
         r = self.rng.random()
@@ -140,12 +158,23 @@ class Gen:
 
     def if_op(self, ind, depth, pool, ivpool):
         c = self.cond(ind, pool)
+        if self.carried and self.rng.random() < 0.3:
+            r1, r2 = self.fresh("y"), self.fresh("y")
+            self.emit(ind, f"{r1}, {r2} = scf.if {c} -> (i32, i32) {{")
+            self.block(ind + 1, depth + 1, pool, ivpool, self.rng.randint(1, 2))
+            self.emit(ind + 1, f"scf.yield {self.rng.choice(pool + ivpool)}, {self.rng.choice(pool + ivpool)} : i32, i32")
+            self.emit(ind, "} else {")
+            self.block(ind + 1, depth + 1, pool, ivpool, self.rng.randint(1, 2))
+            self.emit(ind + 1, f"scf.yield {self.rng.choice(pool + ivpool)}, {self.rng.choice(pool + ivpool)} : i32, i32")
+            self.emit(ind, "}")
+            return [r1, r2]
         self.emit(ind, f"scf.if {c} {{")
         self.block(ind + 1, depth + 1, pool, ivpool, self.rng.randint(1, 2))
         if self.rng.random() < 0.6:
             self.emit(ind, "} else {")
             self.block(ind + 1, depth + 1, pool, ivpool, self.rng.randint(1, 2))
         self.emit(ind, "}")
+        return []
 
     def opaque(self, ind, pool):
         r = self.rng.random()
